@@ -637,13 +637,19 @@ func c14History(r *Run, idx int) {
 }
 
 func runC14(r *Run) {
-	r.Rule("case = one scripted tier-crossing scenario (forced demotion with the package's own eviction event, awaited through the hand-off hooks) or one generated concurrent history on a hybrid / hybrid-loading cache with a demoter goroutine forcing keys across the tiers, admission probability 0/0.5/1, 1-8 workers, failing and slow secondary calls. Non-trivial = a history in which the secondary tier answered at least one Get (distinct by configuration and sizes), or a scripted scenario (distinct by name and cache kind)")
+	r.Rule("case = one scripted life of a single key (c15.go lifeScript: Set / loader / forced eviction / deadline passing under virtual time in either tier with the cached clock refreshed or lagging / Delete; a Get answered without a loader run must return the live value), or one scripted tier-crossing scenario (forced demotion with the package's own eviction event, awaited through the hand-off hooks) or one generated concurrent history on a hybrid / hybrid-loading cache with a demoter goroutine forcing keys across the tiers, admission probability 0/0.5/1, 1-8 workers, failing and slow secondary calls. Non-trivial = a history in which the secondary tier answered at least one Get (distinct by configuration and sizes), or a scripted scenario (distinct by name and cache kind)")
 	r.Assume("forced demotion uses the package's own EVICTE event (same removeEntry path as policy evictions)",
 		"a Get that returned an error (injected secondary failure) carries no information and is not part of the history")
 	ns := r.Pick(8, 160)
 	for i := 0; i < ns; i++ {
 		if i%r.NShards == r.Shard {
 			c14Scripted(r, i)
+		}
+	}
+	nl := r.Pick(400, 20000)
+	for i := 0; i < nl; i++ {
+		if i%r.NShards == r.Shard {
+			lifeScript(r, i, "C14")
 		}
 	}
 	nh := r.Pick(160, 8000)
